@@ -115,4 +115,10 @@ def run_selftest(prop=None, jobs=16, only=None, quiet=False):
             elif not quiet:
                 print(f"  [selftest] {mid}: ok ({info[:100]})")
     print(f"selftest {prop or 'all'}: {len(work)} variants, {bad} failures, {stale} stale")
+    global LAST_SUMMARY
+    LAST_SUMMARY = {"variants": len(work), "failures": bad, "stale": stale,
+                    "mutants_and_seeded": sum(1 for w in work if not w[4]), "equivalents": sum(1 for w in work if w[4])}
     return 2 if bad else 0
+
+
+LAST_SUMMARY: dict = {}
